@@ -73,7 +73,9 @@ def shrink(case, kind):
 def run(ctx: Ctx):
     ctx.cov["rule"] = ("X: seeded datasets of 1-3 tables whose columns are NULL-heavy / all NULL but one / single-valued / "
                        "single-valued with NULLs / all-distinct / mixed, plus 2-3 raw tables without an id column whose rows are exactly "
-                       "duplicated within and across tables (completeness_data and profile_columns treat tables as bags); 2 exact-match comparisons with optional term-frequency "
+                       "duplicated within and across tables (completeness_data and profile_columns treat tables as bags), registered BY NAME on one "
+                       "DatabaseAPI, their contents replaced and the calls repeated; histogram target bins in {3..2000} also on thresholded "
+                       "(narrow-range) predictions; 2 exact-match comparisons with optional term-frequency "
                        "adjustment, 0-2 blocking rules, all link types, target bins in {3,5,10,30,100}; each case yields up to "
                        "14 Coq-evaluated comparisons (3 tf tables, tf join, completeness per column, cvd, histogram, unlinkables, profile_columns per column: value frequencies / percentiles / top n / bottom n); "
                        "non-trivial = has NULLs, >= 2 distinct gamma vectors and >= 2 listed unlinkable probabilities.")
@@ -100,6 +102,28 @@ def run(ctx: Ctx):
     except Exception as e:  # fail closed
         ctx.obligation("regenerate the descriptive SQL snippets", False, repr(e))
         broken_T.append("translation failed: " + repr(e)[:200])
+
+    if not ctx.replay:
+        try:
+            rep, first, second, want = X.replay_witness_completeness_stale()
+            ctx.cov["witness_completeness_after_table_replaced"] = {"first": first, "second_without_cleanup": second, "fresh": want}
+            if rep:
+                ctx.violation("completeness_data answers from the SQL-keyed table cache after a named input table was replaced on the "
+                              f"same DatabaseAPI (no cleanup call): null/total rows {second} instead of {want}",
+                              {"case": X.WITNESS_COMPLETENESS_STALE, "implementation": {"first": first, "second": second},
+                               "specification": {"second": want}},
+                              {"named_table_replaced_without_cleanup": True, "kind": "stale_completeness"})
+            ctx.expect_known("KF-C20-completeness-stale-after-table-replaced", rep, "completeness_data now recomputes after the table changed")
+            rep2, labs = X.replay_witness_completeness_labels()
+            ctx.cov["witness_completeness_named_tables_labels"] = labs
+            if rep2:
+                ctx.violation(f"completeness_data on two tables passed by name labels its rows source_dataset={labs} instead of the table names",
+                              {"case": X.WITNESS_COMPLETENESS_LABELS, "implementation": {"source_dataset": labs},
+                               "specification": {"source_dataset": sorted(X.WITNESS_COMPLETENESS_LABELS["tables"])}},
+                              {"completeness_named_tables_unlabelled": True, "kind": "completeness_labels"})
+            ctx.expect_known("KF-C20-completeness-named-tables-unlabelled", rep2, "rows are labelled with the table names")
+        except Exception:
+            ctx.log("witness replay raised", traceback.format_exc()[-800:])
 
     if ctx.replay:
         rp = json.loads(open(ctx.replay).read())
